@@ -186,7 +186,7 @@ func GrammarPaths() *gen.Grammar {
 		Name: "paths",
 		Atoms: gen.Atoms(".", ".a", ".b", ".[0]", ".[1]", ".[-1]", ".[]", ".[0:1]", ".[1:]", ".[:1]", "..", ".a?", ".[]?", "empty",
 			`getpath(["a","b"])`, `select(type == "number")`, "first(.[]?)", "limit(1; .[]?)", "(if .a? then .a else .b? end)", "(.a? // .b?)",
-			"recurse(.[]?; . != null)", "error", ".a.b", ".a[0]", "last(.[]?)", `.["a"]`),
+			"recurse(.[]?; . != null)", "error", ".a.b", ".a[0]", `.["a"]`, ".[1:2.5]", ".[:1.2]", ".[0.5:]", ".[1.5]"),
 		Forms: []gen.Form{
 			gen.Pipe, gen.Comma,
 			gen.TL("as", ". as $x | %0", 1, pipe),
@@ -197,7 +197,6 @@ func GrammarPaths() *gen.Grammar {
 			gen.T("first", "first(%0)", 1),
 			gen.Alt,
 			gen.T("if", "if %0 then %1 else %2 end", 3),
-			gen.T("recurse", "recurse(%0)", 1),
 		},
 	}
 }
